@@ -17,6 +17,7 @@ NOT_DECIDED = "bounded-ticks reclamation as a number, behaviour under loss / reo
 DECIDED += "; R8 exhaustive scans (on_close, reap_closed, wake_all); R1 requires the SynReceived test to sample Tcb::state before the write to Closed (flow-sensitive)"
 DECIDED += "; R9 a dropped listener sweeps only children of its own address family; CloseWait counts as a completed connect; an orphaned socket takes no new data"
 DECIDED += "; R2 also: the 4-tuple index is cleaned by owner (fd), never by key; fin_seq is the byte after send_buf on both close paths (shared C06-R7); R10 the extracted transition relation is a sub-relation of TCP's"
+DECIDED += "; R11 a shim socket is closed in the kernel of the host that owns it, not of the thread's current host (recorded finding D51)"
 ASSUMPTIONS = ["an fd with no shim handle and not on a listener's ready queue is closed by nobody (derived from creation sites)"]
 
 STATE = "turmoil_net::kernel::socket::Tcb::state"
